@@ -142,6 +142,12 @@ def check_idwords_stepid(ctx, only_stepid=False):
         else:
             st, te = found
             tt = norm(te)
+            # a compared name that holds a row of the identifier table (first = T[newaxis, 0]) stands for that row
+            for nm_ in set(n_.id for n_ in ast.walk(te) if isinstance(n_, ast.Name)):
+                drow = [s2 for s2 in iter_stmts(init.body) if isinstance(s2, ast.Assign) and isinstance(s2.targets[0], ast.Name) and s2.targets[0].id == nm_]
+                if len(drow) == 1 and isinstance(drow[0].value, ast.Subscript) and isinstance(drow[0].value.slice, ast.Tuple) and len(drow[0].value.slice.elts) == 2 \
+                        and not isinstance(drow[0].value.slice.elts[0], ast.Slice) and isinstance(drow[0].value.value, ast.Name):
+                    tt = re.sub(r'\b%s\b' % nm_, norm(drow[0].value), tt)
             both = ('(t, d)' in tt and 'self.STIME' in tt and 'self.SDATE' in tt) or ('time_date != time_date[' in tt) or \
                    (('[:, 0]' in tt) and ('[:, 1]' in tt)) or ('times != times[' in tt)
             one = (('[:, 0]' in tt) != ('[:, 1]' in tt)) or (('STIME' in tt) != ('SDATE' in tt))
@@ -149,6 +155,7 @@ def check_idwords_stepid(ctx, only_stepid=False):
             for nm_ in set(n_.id for n_ in ast.walk(te) if isinstance(n_, ast.Name)):
                 dcol = [s2 for s2 in iter_stmts(init.body) if isinstance(s2, ast.Assign) and isinstance(s2.targets[0], ast.Name) and s2.targets[0].id == nm_]
                 if dcol and any(isinstance(x_, ast.Subscript) and isinstance(x_.slice, ast.Tuple) and len(x_.slice.elts) == 2 and isinstance(x_.slice.elts[1], ast.Constant)
+                                and isinstance(x_.slice.elts[0], ast.Slice)     # T[:, k] is a column; T[newaxis, 0] / T[None, 0] is the first row
                                 for x_ in ast.walk(dcol[-1].value)):
                     both, one = False, True
             if both:
